@@ -98,7 +98,8 @@ def main():
     logging.disable(logging.CRITICAL)
     from xv import core
     mod, hs = core.load_harnesses(prop)
-    harnesses = [h for h in mod.HARNESSES if a.only in (None, h.name) and (tier in h.tiers or a.only == h.name)]
+    only = a.only.split(",") if a.only else None
+    harnesses = [h for h in mod.HARNESSES if (only is None or h.name in only) and (tier in h.tiers or (only and h.name in only))]
     kfs = load_kf(prop)
     kf_open = [e for e in kfs if e.get("status") == "open"]
     kf_fixed = [e for e in kfs if e.get("status") == "fixed"]
